@@ -90,6 +90,30 @@ func errEnum(msg string) string {
 		return "tok-no-accessor"
 	case strings.Contains(msg, "SecretID field is immutable"):
 		return "tok-secret-immutable"
+	case strings.Contains(msg, "missing session"):
+		return "missing-session"
+	case strings.Contains(msg, "invalid session"):
+		return "invalid-session"
+	case strings.Contains(msg, "lock is already held"):
+		return "lock-held"
+	case strings.Contains(msg, "lock isn't held"):
+		return "lock-not-held"
+	case strings.Contains(msg, "failed session check"):
+		return "session-mismatch"
+	case strings.Contains(msg, "failed index check"):
+		return "index-mismatch"
+	case strings.Contains(msg, "doesn't exist"):
+		return "key-missing"
+	case strings.HasPrefix(msg, "key ") && strings.HasSuffix(msg, " exists"):
+		return "key-exists"
+	case strings.Contains(msg, state.ErrMissingSessionID.Error()):
+		return "missing-session-id"
+	case strings.Contains(msg, "Invalid session behavior"):
+		return "bad-behavior"
+	case strings.Contains(msg, structs.ACLBootstrapNotAllowedErr.Error()):
+		return "bootstrap-not-allowed"
+	case strings.Contains(msg, structs.ACLBootstrapInvalidResetIndexErr.Error()):
+		return "bootstrap-invalid-reset"
 	}
 	return "other"
 }
@@ -120,7 +144,7 @@ func txnStr(results structs.TxnResults, errs structs.TxnErrors) string {
 	for _, r := range results {
 		switch {
 		case r.KV != nil:
-			t = append(t, fmt.Sprintf("kv;%s;%d;%d;%d", hx.EncS(r.KV.Key), r.KV.Flags, r.KV.CreateIndex, r.KV.ModifyIndex))
+			t = append(t, fmt.Sprintf("kv;%s;%d;%d;%s;%d;%d", hx.EncS(r.KV.Key), r.KV.Flags, r.KV.LockIndex, hx.EncS(r.KV.Session), r.KV.CreateIndex, r.KV.ModifyIndex))
 		case r.Node != nil:
 			t = append(t, fmt.Sprintf("node;%s;%d;%d", hx.EncS(r.Node.Node), r.Node.CreateIndex, r.Node.ModifyIndex))
 		case r.Service != nil:
@@ -185,11 +209,11 @@ var unmodelledIndexKeys = map[string]bool{"gateway-services": true, "mesh-topolo
 
 // project prints the modelled projection of the store, read straight from memdb.
 func project(st *state.Store) string {
-	var kv, tomb, node, svc, chk, ksn, cfg, car, tok, idx []string
+	var kv, tomb, node, svc, chk, ksn, cfg, car, tok, sess, idx []string
 	cac, ap, fgp, fgs := "-", "-", "-", "-"
 	for _, r := range st.VerifC10Rows("kvs") {
 		e := r.(*structs.DirEntry)
-		kv = append(kv, fmt.Sprintf("%s;%s;%d;%d;%d", hx.EncS(e.Key), hx.EncB(e.Value), e.Flags, e.CreateIndex, e.ModifyIndex))
+		kv = append(kv, fmt.Sprintf("%s;%s;%d;%d;%s;%d;%d", hx.EncS(e.Key), hx.EncB(e.Value), e.Flags, e.LockIndex, hx.EncS(e.Session), e.CreateIndex, e.ModifyIndex))
 	}
 	for _, r := range st.VerifC10Rows("tombstones") {
 		e := r.(*state.Tombstone)
@@ -240,6 +264,10 @@ func project(st *state.Store) string {
 		e := r.(*structs.ACLToken)
 		tok = append(tok, fmt.Sprintf("%s;%s;%s;%d;%d", hx.EncS(e.AccessorID), hx.EncS(e.SecretID), hx.EncS(e.Description), e.CreateIndex, e.ModifyIndex))
 	}
+	for _, r := range st.VerifC10Rows("sessions") {
+		e := r.(*structs.Session)
+		sess = append(sess, fmt.Sprintf("%s;%s;%s;%d;%d", hx.EncS(e.ID), hx.EncS(e.Node), hx.EncS(string(e.Behavior)), e.CreateIndex, e.ModifyIndex))
+	}
 	for _, r := range st.VerifC10Rows("index") {
 		e := r.(*state.IndexEntry)
 		if !unmodelledIndexKeys[e.Key] {
@@ -249,7 +277,7 @@ func project(st *state.Store) string {
 	return strings.Join([]string{
 		"kv=" + sortedList(kv), "tomb=" + sortedList(tomb), "node=" + sortedList(node), "svc=" + sortedList(svc),
 		"chk=" + sortedList(chk), "ksn=" + sortedList(ksn), "cfg=" + sortedList(cfg), "cac=" + cac, "car=" + sortedList(car), "ap=" + ap,
-		"fgp=" + fgp, "fgs=" + fgs, "tok=" + sortedList(tok), "idx=" + sortedList(idx)}, " ")
+		"fgp=" + fgp, "fgs=" + fgs, "tok=" + sortedList(tok), "sess=" + sortedList(sess), "idx=" + sortedList(idx)}, " ")
 }
 
 // fullDump serialises EVERY table of the store (all rows, all fields, index table included).
